@@ -108,8 +108,6 @@ def reuse_check(t, paths):
         segs = sorted(segs, key=lambda s_: (len(s_), s_))
         for rnd in range(2):                      # twice: the second round sees whatever the first one left behind
             for seg in segs:
-                if not seg:
-                    continue
                 got = obs(lambda: t.traverse_from(parent, seg))
                 want = obs(lambda: t.traverse(pre + seg))
                 if got[0] == "partial" and want[0] == "partial":
@@ -157,6 +155,8 @@ def run_case(case, tier):
         if p and rng.random() < (0.5 if tier == "quick" else 1.0):
             cut = rng.randint(0, len(p) - 1)
             splits.append((p[:cut], p[cut:]))
+        if rng.random() < 0.15:
+            splits.append((p, []))          # the empty segment: traverse_from(node, ()) is that node, and reads nothing
     for pre, seg in splits:
         ops.append(("traverse_from", pre, seg))
     for pre, seg in splits:
